@@ -313,7 +313,9 @@ func c18CheckFormatted(out string, x float64, p *c18Picture, s *fmtSyms) string 
 var c18IntParts = []string{"0", "#", "#0", "00", "#,##0", "#,#00", "0,000", "##,#,#0", "#,##,##0", "#,####,#0", "#,######,##0", "#,##,#0"}
 var c18FracParts = []string{"", "0", "#", "00", "0#", "##", "000,0"}
 var c18Modes = []string{"", "%", "‰", "e0", "e00"}
-var c18Values = []float64{0, negZero, 1, -1, 0.5, 1.5, 2.5, -2.5, 0.125, 12.345, 999.995, 1234.5678, 1234567, 12345678, 123456789012, 1e-7, 1e15, 1e21, 0.00012, -1234.5678, 99.5, 9.96}
+var c18Values = []float64{0, negZero, 1, -1, 0.5, 1.5, 2.5, -2.5, 0.125, 12.345, 999.995, 1234.5678, 1234567, 12345678, 123456789012, 1e-7, 1e15, 1e21, 0.00012, -1234.5678, 99.5, 9.96,
+	// doubles next to a tie, and decimals whose scaled value (percent, per-mille, mantissa) is not exact in binary
+	0.49999999999999994, 1.6500000000000001, 999.9499999999999, 0.10155, 0.009575, 2.675, 1.005, 0.285, 1234.5649999999998, 8.345e-7}
 
 var negZero = func() float64 { z := 0.0; return -z }()
 
